@@ -165,9 +165,11 @@ def make_stream(rng, case, rows, mode):
             pos += vc * nind
         if pos < len(flat):
             polys.append(flat[pos:])
-        if mode == 'ragged' and polys and rng.random() < 0.5 and nind > 1:
-            # two individually ragged polygons whose total length divides evenly
-            polys = polys + [[0] * (nind + 1), [0] * (nind - 1)]
+        if mode == 'pragged' and len(flat) >= 2 and nind > 1:
+            # a well-formed stream cut into <p>s at arbitrary places: individually ragged, total even
+            ncuts = rng.choice([1, 1, 2, 3])
+            cuts = sorted(rng.randrange(1, len(flat)) for _ in range(ncuts))
+            polys = [flat[a:b] for a, b in zip([0] + cuts, cuts + [len(flat)])]
         out['polys'] = polys
     else:
         out['flat'] = flat
@@ -188,6 +190,9 @@ def gen_case(rng, max_rows=4, rows=None, modes=(50, 30, 8, 9, 3), clean=False, m
     if rows is None:
         rows = rng.choice([0, 1, 1, 2, 2, 3, max_rows])
     mode = rng.choices(['ok', 'oor', 'ragged', 'vcount', 'novertex'], list(modes))[0]
+    if mode == 'ragged' and kind == 'polygons' and rng.random() < 0.6:
+        mode = 'pragged'
+        rows = max(rows, 1)
     case['mode'] = mode
     if mode == 'novertex':
         # no vertex input: only where the code has a defined answer (lines: DaeIncompleteError;
@@ -220,6 +225,8 @@ def param_forms(rng, case, clean):
             names[str(i)] = [None if rng.random() < 0.5 else c for c in base]
         elif r < 0.16 and nc == 2:
             names[str(i)] = ['U', 'V']                                    # converted to S, T by the loader
+        elif r < 0.24 and nc == 2:
+            names[str(i)] = ['S', 'T', 'P']                               # stride 3 in the file, third column dropped
         elif r < 0.22 and nc == 3:
             names[str(i)] = ['R', 'G', 'B']
         elif r < 0.30 and not clean and nc < 4:
@@ -230,10 +237,50 @@ def param_forms(rng, case, clean):
         case['pnames'] = names
 
 
+SOURCE_FORMS = {1: ['std', 'unnamed'], 2: ['std', 'uv', 'unnamed', 'partial'],
+                3: ['std', 'stp', 'unnamed', 'partial'], 4: ['std', 'unnamed', 'partial']}
+
+
 def gen_source_case(rng):
     nc = rng.choice([1, 2, 3, 4])
     n = rng.randint(0, 13)
-    return {'kind': 'source', 'via': rng.choice(['create', 'xml']), 'n': n, 'ncomp': nc}
+    via = rng.choice(['create', 'xml'])
+    return {'kind': 'source', 'via': via, 'n': n, 'ncomp': nc,
+            'form': rng.choice(SOURCE_FORMS[nc]) if via == 'xml' else 'std'}
+
+
+def systematic_source_cases():
+    """load path: every param pattern (named, U/V, S/T/P, unnamed, partly named) x every stride x
+    every remainder 0..stride-1 x 0..3 whole elements; plus the API path for every stride"""
+    for nc in (1, 2, 3, 4):
+        for form in SOURCE_FORMS[nc]:
+            stride = 3 if form == 'stp' else nc
+            for q in (0, 1, 2, 3):
+                for r in range(stride):
+                    yield {'kind': 'source', 'via': 'xml', 'n': q * stride + r, 'ncomp': nc, 'form': form}
+        for q in (0, 2):
+            for r in range(nc):
+                yield {'kind': 'source', 'via': 'create', 'n': q * nc + r, 'ncomp': nc, 'form': 'std'}
+
+
+def polygon_remainder_cases(rng):
+    """<polygons> with two or three <p> whose lengths are q*nind + r for EVERY combination of
+    remainders r (not all zero), nind = 1..4; the totals divide evenly for the combinations whose
+    remainders add up to a multiple of nind - only the per-<p> lengths give the defect away"""
+    import itertools
+    layout = [(0, 'VERTEX', 3), (1, 'NORMAL', 3), (2, 'TEXCOORD', 2), (3, 'TEXCOORD', 2)]
+    for nind in (1, 2, 3, 4):
+        for m in (2, 3):
+            for rem in itertools.product(range(nind), repeat=m):
+                if not any(rem) and nind > 1:
+                    continue
+                for variant in range(2):
+                    srcs = [[3, nc] for _, _, nc in layout[:nind]]
+                    inputs = [[o, sem, ['src', i]] for i, (o, sem, _) in enumerate(layout[:nind])]
+                    polys = [[rng.randint(0, 2) for _ in range(rng.choice([0, 1, 2, 3]) * nind + r)] for r in rem]
+                    yield {'kind': 'polygons', 'via': 'create' if variant == 0 else 'xml', 'srcs': srcs,
+                           'inputs': inputs, 'material': None, 'mode': 'premainder', 'polys': polys,
+                           'dtype': 'int32', 'vcform': 'array'}
 
 
 def exhaustive_cases():
@@ -306,6 +353,12 @@ def c_acc(acc):
 
 
 def c_case(case, res):
+    if case['kind'] == 'source' and case['via'] == 'xml':
+        acc = res.get('acc')
+        acc_c = 'None' if acc is None else '(Some %s)' % ctuple(
+            cnat(acc[0]), cnat(acc[1]), clist([clist([core.cZ(x) for x in row]) for row in acc[2]]))
+        return '(CSourceLoad %s %s %s %s %s)' % (core.cbool(case.get('form') == 'stp'), cnat(case['n']),
+                                                 cnat(case['ncomp']), cnat(res['code']), acc_c)
     if case['kind'] == 'source':
         return '(CSource %s %s %s)' % (cnat(case['n']), cnat(case['ncomp']), cnat(res['code']))
     return '(CPrim %s %s %s %s %s %s %s)' % (KIND_C[case['kind']], c_srcs(case), c_inputs(case), c_mat(case),
@@ -374,6 +427,8 @@ def run(ctx):
         cases.append(gen_case(ctx.rng))
     for _ in range(60 if quick else 600):
         cases.append(gen_source_case(ctx.rng))
+    systematic = list(systematic_source_cases()) + list(polygon_remainder_cases(ctx.rng))
+    cases.extend(systematic)
     nexh = 0
     if not quick:
         ex = list(exhaustive_cases())
@@ -392,14 +447,14 @@ def run(ctx):
     dist = {'by_kind': {}, 'by_via': {}, 'by_mode': {}, 'accepted': 0, 'rejected_by_code': {},
             'judged_bad': {}, 'inputs_histogram': {}, 'zero_rows': 0, 'corpus_cases': ncorpus,
             'with_prelude_constructions': 0, 'with_param_name_forms': 0, 'index_dtypes': {},
-            'exhaustive_slice_cases': nexh}
+            'exhaustive_slice_cases': nexh, 'systematic_source_and_polygon_remainder_cases': len(systematic)}
     for c, r in zip(cases, results):
         dist['by_kind'][c['kind']] = dist['by_kind'].get(c['kind'], 0) + 1
         dist['by_via'][c.get('via')] = dist['by_via'].get(c.get('via'), 0) + 1
         dist['by_mode'][c.get('mode', 'source')] = dist['by_mode'].get(c.get('mode', 'source'), 0) + 1
         if r['code'] == 0:
             dist['accepted'] += 1
-            if r['acc'] and r['acc'][1] == 0:
+            if c['kind'] != 'source' and r['acc'] and r['acc'][1] == 0:
                 dist['zero_rows'] += 1
         else:
             dist['rejected_by_code'][str(r['code'])] = dist['rejected_by_code'].get(str(r['code']), 0) + 1
@@ -412,7 +467,7 @@ def run(ctx):
                 dist['index_dtypes'][c.get('dtype', 'int32')] = dist['index_dtypes'].get(c.get('dtype', 'int32'), 0) + 1
             n = str(len(c['inputs']))
             dist['inputs_histogram'][n] = dist['inputs_histogram'].get(n, 0) + 1
-        nontrivial = r['code'] != 0 or (r['acc'] and r['acc'][1] > 0)
+        nontrivial = r['code'] != 0 or bool(r['acc'] and (r['acc'][0] > 0 if c['kind'] == 'source' else r['acc'][1] > 0))
         if nontrivial:
             seen.add(core.canon_hash({k: v for k, v in c.items() if k != 'mode'}))
     corr = {
@@ -438,6 +493,7 @@ def run(ctx):
         extra = [m['input'] for m in mm if m.get('input')]
         extra += [gen_case(ctx.rng, max_rows=6) for _ in range(6000)]
         extra += [gen_source_case(ctx.rng) for _ in range(200)]
+        extra += list(polygon_remainder_cases(ctx.rng))
         res = run_impl_cases(extra)
         return first_failures(extra, res)
 
